@@ -7,10 +7,13 @@ from . import pyoracle, runner, seeds, tlc, tracecheck, variations
 from .common import Check
 
 
-def enumerate_vectors(chk: Check) -> list[dict]:
+BASE = {"wrap": "none", "layout": "lf", "mult": 1, "imp": "asis", "args": "asis"}
+
+
+def enumerate_vectors(chk: Check, with_args: bool = False) -> list[dict]:
     res = tlc.run_tlc(tlc.SPEC_DIR, "Variants", "Variants.cfg", dump=True)
     chk.add_tlc(res)
-    vs = [st["v"] for st in res.dump if st["st"] == "init"]
+    vs = [st["v"] for st in res.dump if st["st"] == "init" and (with_args or st["v"]["args"] == "asis")]
     vs.sort(key=lambda v: json.dumps(v, sort_keys=True))
     return vs
 
@@ -19,7 +22,7 @@ def covering(chk: Check, vectors: list[dict], n: int) -> list[dict]:
     pool = list(vectors)
     chk.rng.shuffle(pool)
     covered, out, rest = set(), [], []
-    base = {"wrap": "none", "layout": "lf", "mult": 1, "imp": "asis"}
+    base = dict(BASE)
     out.append(base)
     for v in pool:
         if v == base:
@@ -37,12 +40,12 @@ def covering(chk: Check, vectors: list[dict], n: int) -> list[dict]:
 
 
 def vec_key(v: dict) -> str:
-    return f"{v['wrap']}/{v['layout']}/x{v['mult']}/{v['imp']}"
+    return f"{v['wrap']}/{v['layout']}/x{v['mult']}/{v['imp']}" + (f"/{v['args']}" if v.get("args", "asis") != "asis" else "")
 
 
 def build_batches(chk: Check, *, codemods=None, seeds_per_codemod: int = 2, vectors_per_seed: int = 8, vectors=None,
                   step_extra: dict | None = None, second_run: bool = False, origin: str = "pixee", with_extra: bool = False,
-                  extra_vectors: int = 3) -> list[dict]:
+                  extra_vectors: int = 3, rare_seeds: int = 4) -> list[dict]:
     """One scenario per find-and-fix codemod: a project with one file per (seed, variation)."""
     vectors = vectors or enumerate_vectors(chk)
     by = seeds.by_codemod(with_extra=with_extra)
@@ -55,13 +58,30 @@ def build_batches(chk: Check, *, codemods=None, seeds_per_codemod: int = 2, vect
         chosen = cands[:seeds_per_codemod]
         probes = [s for s in by[cid] if s.test.startswith("extra::")]
         chosen += probes
+        # a rare argument-list variation (dict-spread) gets the seeds it applies to, beyond the shortest ones
+        rare: dict = {}
+        if any(v.get("args") == "dict-spread" for v in vectors):
+            for s in cands[seeds_per_codemod:]:
+                if len(rare) >= rare_seeds:
+                    break
+                if variations.extend_args(s.input, "dict-spread", variations.changed_lines(s.input, s.expected)) is not None:
+                    rare[s.key] = s
         files, metas = {}, {}
         n = 0
-        for s in chosen:
+        for s in chosen + list(rare.values()):
             base_ok = pyoracle.compiles(s.input)
-            for v in covering(chk, vectors, extra_vectors if s.test.startswith("extra::") else vectors_per_seed):
+            if s.key in rare:
+                vs = [v for v in vectors if v.get("args") == "dict-spread"]
+                chk.rng.shuffle(vs)
+                vs = sorted(vs[:2], key=vec_key)
+            else:
+                vs = covering(chk, vectors, extra_vectors if s.test.startswith("extra::") else vectors_per_seed)
+            for v in vs:
                 added = [ln for ln in s.expected.split("\n") if seeds.is_import_line(ln) and ln.strip() and ln not in s.input.split("\n")]
-                text = variations.apply(s.input, v, added)
+                text = variations.apply(s.input, v, added, s.expected)
+                if text is None:
+                    discarded += 1
+                    continue
                 if base_ok and not pyoracle.compiles(text):
                     discarded += 1
                     continue
@@ -110,7 +130,7 @@ def build_sast(chk: Check, *, second_run: bool = False, step_extra: dict | None 
         if second_run:
             steps.append({"argv": argv, "expect": {"frozen": True}})
         out.append({"id": f"S-{s.codemod}-{count[s.codemod]}", "files": {"code.py": s.input}, "resfiles": {"results.json": seeds.results_for_cli(s.tool, s.results)},
-                    "steps": steps, "_codemod": s.codemod, "_metas": {"code.py": {"seed": s.key, "vector": {"wrap": "none", "layout": "lf", "mult": 1, "imp": "asis"}}}})
+                    "steps": steps, "_codemod": s.codemod, "_metas": {"code.py": {"seed": s.key, "vector": dict(BASE)}}})
     return out
 
 
